@@ -184,7 +184,6 @@ UpdateStim(plans) == {[op |-> "Update", fnok |-> b, k |-> p.k, mode |-> p.mode] 
 RestartStim(vs, fns, fates, plans) ==
   {[op |-> "Restart", v |-> v, fn |-> b, fate |-> ft, k |-> p.k, mode |-> p.mode] : v \in vs, b \in fns, ft \in fates, p \in plans}
 
-ReadOps == {"IsCorrupted", "IsTainted", "StoreVersion", "Check"}
 FullStimuli ==
   Op(TwoOps \cup OneOps, NoPlan) \cup UpdateStim(NoPlan)
   \cup Op(TwoOps, PlansUpTo(2)) \cup Op(OneOps, PlansUpTo(1)) \cup UpdateStim(PlansUpTo(2))
